@@ -336,7 +336,12 @@ func (c *cctx) eval(e ast.Expr) cval {
 			for k, cm := range comps {
 				ts[k] = Select(cm, pos)
 			}
-			return cval{x.unflatten(et, ts), et}
+			ev := x.unflatten(et, ts)
+			if isRefType(et) {
+				// pre-state objects are not the ones this unit allocates
+				c.st.add(x.typeFacts(et, ev))
+			}
+			return cval{ev, et}
 		case Ar:
 			var et types.Type = types.Typ[types.Byte]
 			if base.t != nil {
@@ -765,7 +770,9 @@ func (c *cctx) evalCall(e *ast.CallExpr) cval {
 				n.bound[kk] = vv
 			}
 			n.bound[kid.Name] = k
+			base := len(c.st.assume)
 			body := x.cbool(e.Args[1], &n)
+			c.closeFacts(base, k, True)
 			if name == "forall" {
 				var pats [][]*Term
 				if !x.ar.BV {
@@ -810,9 +817,11 @@ func (c *cctx) evalCall(e *ast.CallExpr) cval {
 			n.bound[kk] = vv
 		}
 		n.bound[kid.Name] = k
+		base := len(c.st.assume)
 		body := x.cbool(e.Args[3], &n)
 		mi := x.ar.mathInfo()
 		rng := And(x.ar.le(lo, k, mi), x.ar.lt(k, hi, mi))
+		c.closeFacts(base, k, rng)
 		var pats [][]*Term
 		for _, p := range e.Args[4:] {
 			// explicit patterns: pat(e1, e2, ...)
@@ -936,6 +945,11 @@ func (c *cctx) evalCall(e *ast.CallExpr) cval {
 			return c.boolVal(True)
 		}
 		return c.boolVal(Select(Select(x.mapHasArr(c.st), x.scalarOf(m.v, m.t)), k))
+	case "allocated":
+		// allocated(p): p is nil or an object that exists now (it is not one a
+		// later allocation returns)
+		a := c.eval(arg(0))
+		return c.boolVal(ILe(x.scalarOf(a.v, nil), x.frontier(c.st)))
 	case "typeis":
 		// typeis(x, "T"): the interface value x holds a non-nil *T
 		a := c.eval(arg(0))
@@ -1090,6 +1104,42 @@ func (c *cctx) evalCall(e *ast.CallExpr) cval {
 }
 
 // autoPatterns: select terms over the bound variable.
+// closeFacts: type-invariant facts recorded in the state while a quantifier
+// body was evaluated may mention the bound variable; they hold for every
+// value of it, so they are kept as universally quantified facts (over the
+// quantifier's range) instead of leaking the variable.
+func (c *cctx) closeFacts(base int, k *Term, rng *Term) {
+	if base > len(c.st.assume) {
+		return
+	}
+	added := append([]*Term(nil), c.st.assume[base:]...)
+	c.st.assume = c.st.assume[:base]
+	for _, f := range added {
+		if !termMentions(f, k.Name) {
+			c.st.add(f)
+			continue
+		}
+		g := Implies(rng, f)
+		var pats [][]*Term
+		if !c.x.ar.BV {
+			pats = autoPatterns(g, k)
+		}
+		c.st.add(Forall([]*Term{k}, g, pats...))
+	}
+}
+
+func termMentions(t *Term, name string) bool {
+	if t.Op == "var" {
+		return t.Name == name
+	}
+	for _, a := range t.Args {
+		if termMentions(a, name) {
+			return true
+		}
+	}
+	return false
+}
+
 func autoPatterns(body *Term, k *Term) [][]*Term {
 	var pats [][]*Term
 	seen := map[string]bool{}
